@@ -195,4 +195,145 @@ theorem levelLoop_terminates (evAt : Nat → Except Err Dist) (pmins : Dist) :
     · rw [if_neg hb]
       exact ⟨h, rfl⟩
 
+/-! ### `add_dict_to_dict` and the multistage accumulation -/
+
+theorem distGet_cons (x : Key × Nat) (xs : Dist) (k : Key) :
+    distGet (x :: xs) k = if x.1 = k then x.2 else distGet xs k := by
+  unfold distGet
+  by_cases h : x.1 = k
+  · simp [h]
+  · simp [h]
+
+theorem distGet_setK (d : Dist) (k : Key) (v : Nat) (k' : Key) :
+    distGet (setK d k v) k' = if k = k' then v else distGet d k' := by
+  induction d with
+  | nil =>
+    simp only [setK, distGet_cons]
+  | cons x xs ih =>
+    simp only [setK]
+    by_cases hx : x.1 = k
+    · rw [if_pos hx, distGet_cons, distGet_cons]
+      simp only
+      by_cases h : k = k'
+      · simp [h]
+      · have : ¬ x.1 = k' := by rw [hx]; exact h
+        simp [h, this]
+    · rw [if_neg hx, distGet_cons, distGet_cons, ih]
+      by_cases hxk : x.1 = k'
+      · have : ¬ k = k' := by rw [← hxk]; exact fun h => hx h.symm
+        simp [hxk, this]
+      · simp [hxk]
+
+theorem sumDist_cons (x : Key × Nat) (xs : Dist) : sumDist (x :: xs) = x.2 + sumDist xs := by
+  unfold sumDist; simp
+
+theorem sumDist_setK (d : Dist) (k : Key) (v : Nat) :
+    sumDist (setK d k v) + distGet d k = sumDist d + v := by
+  induction d with
+  | nil => simp [setK, sumDist, distGet]
+  | cons x xs ih =>
+    simp only [setK]
+    by_cases hx : x.1 = k
+    · rw [if_pos hx, distGet_cons, if_pos hx, sumDist_cons, sumDist_cons]
+      simp only
+      omega
+    · rw [if_neg hx, distGet_cons, if_neg hx, sumDist_cons, sumDist_cons]
+      omega
+
+theorem addDist_cons (d1 : Dist) (x : Key × Nat) (xs : Dist) :
+    addDist d1 (x :: xs) = addDist (setK d1 x.1 (distGet d1 x.1 + x.2)) xs := rfl
+
+/-- adding a result never lowers an entry -/
+theorem distGet_addDist_ge (d1 d2 : Dist) (k : Key) : distGet d1 k ≤ distGet (addDist d1 d2) k := by
+  induction d2 generalizing d1 with
+  | nil => exact Nat.le_refl _
+  | cons x xs ih =>
+    rw [addDist_cons]
+    refine Nat.le_trans ?_ (ih _)
+    rw [distGet_setK]
+    split
+    · rename_i h; rw [h]; omega
+    · exact Nat.le_refl _
+
+/-- every entry of the added dict is contained in the sum -/
+theorem distGet_addDist_mem (d1 d2 : Dist) (p : Key × Nat) (hp : p ∈ d2) : p.2 ≤ distGet (addDist d1 d2) p.1 := by
+  induction d2 generalizing d1 with
+  | nil => simp at hp
+  | cons x xs ih =>
+    rw [addDist_cons]
+    rcases List.mem_cons.mp hp with rfl | hp'
+    · refine Nat.le_trans ?_ (distGet_addDist_ge _ _ _)
+      rw [distGet_setK]; simp
+    · exact ih _ hp'
+
+theorem sumDist_addDist (d1 d2 : Dist) : sumDist (addDist d1 d2) = sumDist d1 + sumDist d2 := by
+  induction d2 generalizing d1 with
+  | nil => simp [addDist, sumDist]
+  | cons x xs ih =>
+    rw [addDist_cons, ih, sumDist_cons]
+    have := sumDist_setK d1 x.1 (distGet d1 x.1 + x.2)
+    omega
+
+theorem multistage_cons_ok (stage : PropEval) (votes : Votes) (rest : List (PropEval × Votes)) (n : Nat)
+    (elected out : Dist) (caps : Seats) (h : multistage ((stage, votes) :: rest) n elected caps = .ok out) :
+    ∃ prev res, distToSeats elected = some prev ∧ stage votes n prev caps = .ok res ∧
+      multistage rest n (addDist elected res) caps = .ok out := by
+  simp only [multistage] at h
+  cases hs : distToSeats elected with
+  | none => rw [hs] at h; simp at h
+  | some prev =>
+    rw [hs] at h
+    simp only at h
+    cases hr : stage votes n prev caps with
+    | error e => rw [hr] at h; simp at h
+    | ok res =>
+      rw [hr] at h
+      exact ⟨prev, res, rfl, hr, h⟩
+
+/-- seats accumulated by a `MultistageDistributor` never decrease from stage to stage -/
+theorem multistage_mono (rounds : List (PropEval × Votes)) (n : Nat) (caps : Seats) :
+    ∀ (elected out : Dist), multistage rounds n elected caps = .ok out → ∀ k, distGet elected k ≤ distGet out k := by
+  induction rounds with
+  | nil =>
+    intro elected out h k
+    simp only [multistage, Except.ok.injEq] at h
+    rw [h]
+  | cons r rs ih =>
+    intro elected out h k
+    obtain ⟨stage, votes⟩ := r
+    simp only [multistage] at h
+    cases hs : distToSeats elected with
+    | none => rw [hs] at h; simp at h
+    | some prev =>
+      rw [hs] at h
+      simp only at h
+      cases hr : stage votes n prev caps with
+      | error e => rw [hr] at h; simp at h
+      | ok res =>
+        rw [hr] at h
+        simp only at h
+        exact Nat.le_trans (distGet_addDist_ge _ _ _) (ih _ _ h k)
+
+theorem sumDist_seatsToDist (s : Seats) : sumDist (seatsToDist s) = sumSeats s := by
+  unfold sumDist seatsToDist sumSeats
+  simp [List.map_map, Function.comp_def]
+
+theorem distToSeats_sum : ∀ (d : Dist) (s : Seats), distToSeats d = some s → sumSeats s = sumDist d := by
+  intro d
+  induction d with
+  | nil => intro s h; simp only [distToSeats, Option.some.injEq] at h; subst h; rfl
+  | cons x xs ih =>
+    intro s h
+    obtain ⟨k, v⟩ := x
+    cases k with
+    | tie T => simp [distToSeats] at h
+    | cand c =>
+      simp only [distToSeats, Option.map_eq_some_iff] at h
+      obtain ⟨r, hr, rfl⟩ := h
+      rw [sumDist_cons]
+      have := ih r hr
+      unfold sumSeats at this ⊢
+      simp only [List.map_cons, List.sum_cons]
+      omega
+
 end VL.OH
